@@ -884,4 +884,213 @@ theorem createNode_dnaGrows (g : Grammar) (dec : Decider) (fuel : Nat) (ty : Ty)
     KeyPrefix s.dna (createNode g dec fuel ty ctx deps s).state.dna :=
   ((dnaGrows_stepRel.closed g dec).createNode_all fuel).1 ty ctx deps s
 
+
+/-! ### Replay: mapping the extended genotype again -/
+
+/-- same program, or same exception -/
+def SameOut {α : Type} : Res α → Res α → Prop
+  | .ok a _, .ok b _ => a = b
+  | .err e _, .err f _ => e = f
+  | _, _ => False
+
+/-- `m` can be replayed: run 1 from `a` only extends the genotype; and run 2 from ANY state `b`
+with the same read positions whose genotype already contains (key-wise) everything run 1 ends
+with gives the same outcome, ends at the same positions, and neither changes its genotype nor
+touches its random source. -/
+def Replay {α : Type} (m : SynM α) : Prop :=
+  ∀ a, a.metaFromGenes = true →
+    (m a).state.metaFromGenes = true ∧ KeyPrefix a.dna (m a).state.dna ∧
+    ∀ b, b.metaFromGenes = true → b.pos = a.pos → KeyPrefix (m a).state.dna b.dna →
+      SameOut (m a) (m b) ∧ (m b).state.pos = (m a).state.pos ∧ (m b).state.dna = b.dna ∧
+      (m b).state.src = b.src ∧ (m b).state.metaFromGenes = true
+
+theorem Replay.congr {α : Type} {m m' : SynM α} (h : ∀ s, s.metaFromGenes = true → m s = m' s)
+    (hm : Replay m') : Replay m := by
+  intro a ha
+  rw [h a ha]
+  obtain ⟨h1, h2, h3⟩ := hm a ha
+  refine ⟨h1, h2, ?_⟩
+  intro b hb
+  rw [h b hb]
+  exact h3 b hb
+
+theorem Replay.pure {α : Type} (x : α) : Replay (Pure.pure x : SynM α) := by
+  intro a ha
+  refine ⟨ha, KeyPrefix.refl _, ?_⟩
+  intro b hb hpos _
+  exact ⟨rfl, hpos, rfl, rfl, hb⟩
+
+theorem Replay.throwE {α : Type} (e : Err) : Replay (throwE e : SynM α) := by
+  intro a ha
+  refine ⟨ha, KeyPrefix.refl _, ?_⟩
+  intro b hb hpos _
+  exact ⟨rfl, hpos, rfl, rfl, hb⟩
+
+theorem Replay.bind {α β : Type} (m : SynM α) (f : α → SynM β) (hm : Replay m)
+    (hf : ∀ x, Replay (f x)) : Replay (m >>= f) := by
+  intro a ha
+  obtain ⟨hm1, hm2, hm3⟩ := hm a ha
+  simp only [SynM.bind_def]
+  cases hma : m a with
+  | err e a1 =>
+    rw [hma] at hm1 hm2 hm3
+    refine ⟨hm1, hm2, ?_⟩
+    intro b hb hpos hpre
+    obtain ⟨h1, h2, h3, h4, h5⟩ := hm3 b hb hpos hpre
+    cases hmb : m b with
+    | ok x' b1 => rw [hmb] at h1; exact h1.elim
+    | err e' b1 =>
+      rw [hmb] at h1 h2 h3 h4 h5
+      exact ⟨h1, h2, h3, h4, h5⟩
+  | ok x a1 =>
+    rw [hma] at hm1 hm2 hm3
+    obtain ⟨hf1, hf2, hf3⟩ := hf x a1 hm1
+    refine ⟨hf1, hm2.trans hf2, ?_⟩
+    intro b hb hpos hpre
+    obtain ⟨h1, h2, h3, h4, h5⟩ := hm3 b hb hpos (hf2.trans hpre)
+    cases hmb : m b with
+    | err e' b1 => rw [hmb] at h1; exact h1.elim
+    | ok x' b1 =>
+      rw [hmb] at h1 h2 h3 h4 h5
+      have hx : x = x' := h1
+      subst hx
+      simp only [Res.state] at h2 h3 h4 h5
+      obtain ⟨g1, g2, g3, g4, g5⟩ := hf3 b1 h5 h2 (by rw [h3]; exact hpre)
+      exact ⟨g1, g2, g3.trans h3, g4.trans h4, g5⟩
+
+theorem Replay.dsgeRead (k : Ty) : Replay (dsgeRead k) := by
+  intro a ha
+  obtain ⟨genes', src', h, hp, hlen, _, _⟩ := dsgeRead_spec k a
+  rw [h]
+  simp only [Res.state]
+  refine ⟨ha, KeyPrefix.tySet k a.dna genes' hp, ?_⟩
+  intro b hb hpos hpre
+  have hk := hpre k
+  rw [tyLookup_tySet] at hk
+  simp only [beq_self_eq_true, if_true] at hk
+  -- run 2 finds the gene in place
+  obtain ⟨gb, srcb, hB, _, _, hsame, _⟩ := dsgeRead_spec k b
+  have hlenb : tyLookup k 0 b.pos < (tyLookup k [] b.dna).length := by
+    rw [hpos]; exact Nat.lt_of_lt_of_le hlen hk.length_le
+  obtain ⟨rfl, rfl⟩ := hsame hlenb
+  rw [hB]
+  simp only
+  have hne : tyLookup k [] b.dna ≠ [] := by
+    intro h0; rw [h0] at hlenb; simp at hlenb
+  refine ⟨?_, by rw [hpos], tySet_tyLookup_self k b.dna hne, trivial, hb⟩
+  show genes'.getD _ 0 = (tyLookup k [] b.dna).getD _ 0
+  rw [hpos]
+  obtain ⟨t, ht⟩ := hk
+  rw [← ht, List.getD_eq_getElem?_getD, List.getD_eq_getElem?_getD, List.getElem?_append_left hlen]
+
+theorem Replay.dsgeInt (lo hi : Int) : Replay (dsgeIntM lo hi) := by
+  unfold dsgeIntM
+  refine Replay.bind _ _ (Replay.dsgeRead _) fun v => ?_
+  split
+  · exact Replay.throwE _
+  · exact Replay.pure _
+
+theorem replay_closed0 : Closed0 (fun {α} (m : SynM α) => Replay m) where
+  pure a := Replay.pure a
+  throwE e := Replay.throwE e
+  bind m f hm hf := Replay.bind m f hm hf
+  randint lo hi := by
+    refine Replay.congr (m' := dsgeIntM lo hi) ?_ (Replay.dsgeInt lo hi)
+    intro s hs
+    unfold randintM
+    rw [if_pos hs]
+
+/-- for the dynamic-SGE decider every construct of `createNode` can be replayed -/
+theorem replay_closed (g : Grammar) (dec : Decider) (hk : dec.kind = .dsge) :
+    Closed g dec (fun {α} (m : SynM α) => Replay m) where
+  toClosed0 := replay_closed0
+  decInt E lo hi := by
+    have : decIntM dec E lo hi = dsgeIntM lo hi := by unfold decIntM; rw [hk]
+    rw [this]; exact Replay.dsgeInt lo hi
+  decFloat := by
+    have : decFloatM dec = (do let _ ← dsgeRead .float; pure () : SynM Unit) := by
+      unfold decFloatM; rw [hk]
+    rw [this]
+    exact Replay.bind _ _ (Replay.dsgeRead _) fun _ => Replay.pure _
+  decBool := by
+    have : decBoolM dec = (do let v ← dsgeRead .bool; pure (v % 2 == 1) : SynM Bool) := by
+      unfold decBoolM; rw [hk]
+    rw [this]
+    exact Replay.bind _ _ (Replay.dsgeRead _) fun _ => Replay.pure _
+  floatDraw := by
+    refine Replay.congr (m' := (do let _ ← dsgeRead .float; pure () : SynM Unit)) ?_
+      (Replay.bind _ _ (Replay.dsgeRead _) fun _ => Replay.pure _)
+    intro s hs
+    unfold floatDrawM
+    rw [if_pos hs]
+  chooseProd key alts ctx := by
+    have h0 := replay_closed0
+    unfold chooseProd
+    rw [hk]
+    dsimp only
+    split
+    · exact Replay.throwE _
+    · refine Replay.bind _ _ (Replay.dsgeRead _) fun _ => ?_
+      closed0_auto h0
+  retry m k h hm hh := by
+    intro a ha
+    obtain ⟨hm1, hm2, hm3⟩ := hm a ha
+    simp only [retryM]
+    cases hma : m a with
+    | ok v a1 =>
+      rw [hma] at hm1 hm2 hm3
+      refine ⟨hm1, hm2, ?_⟩
+      intro b hb hpos hpre
+      obtain ⟨h1, h2, h3, h4, h5⟩ := hm3 b hb hpos hpre
+      cases hmb : m b with
+      | err e' b1 => rw [hmb] at h1; exact h1.elim
+      | ok v' b1 =>
+        rw [hmb] at h1 h2 h3 h4 h5
+        have hv : v = v' := h1
+        subst hv
+        exact ⟨rfl, h2, h3, h4, h5⟩
+    | err e a1 =>
+      rw [hma] at hm1 hm2 hm3
+      cases e with
+      | synthesis =>
+        obtain ⟨hf1, hf2, hf3⟩ := hh a1 hm1
+        refine ⟨hf1, hm2.trans hf2, ?_⟩
+        intro b hb hpos hpre
+        obtain ⟨h1, h2, h3, h4, h5⟩ := hm3 b hb hpos (hf2.trans hpre)
+        cases hmb : m b with
+        | ok v' b1 => rw [hmb] at h1; exact h1.elim
+        | err e' b1 =>
+          rw [hmb] at h1 h2 h3 h4 h5
+          have he : Err.synthesis = e' := h1
+          subst he
+          simp only [Res.state] at h2 h3 h4 h5
+          obtain ⟨g1, g2, g3, g4, g5⟩ := hh a1 hm1 |>.2.2 b1 h5 h2 (by rw [h3]; exact hpre)
+          exact ⟨g1, g2, g3.trans h3, g4.trans h4, g5⟩
+      | library =>
+        refine ⟨hm1, hm2, ?_⟩
+        intro b hb hpos hpre
+        obtain ⟨h1, h2, h3, h4, h5⟩ := hm3 b hb hpos hpre
+        cases hmb : m b with
+        | ok v' b1 => rw [hmb] at h1; exact h1.elim
+        | err e' b1 =>
+          rw [hmb] at h1 h2 h3 h4 h5
+          have he : Err.library = e' := h1
+          subst he
+          exact ⟨rfl, h2, h3, h4, h5⟩
+      | foreign name =>
+        refine ⟨hm1, hm2, ?_⟩
+        intro b hb hpos hpre
+        obtain ⟨h1, h2, h3, h4, h5⟩ := hm3 b hb hpos hpre
+        cases hmb : m b with
+        | ok v' b1 => rw [hmb] at h1; exact h1.elim
+        | err e' b1 =>
+          rw [hmb] at h1 h2 h3 h4 h5
+          have he : Err.foreign name = e' := h1
+          subst he
+          exact ⟨rfl, h2, h3, h4, h5⟩
+
+theorem createNode_replay (g : Grammar) (dec : Decider) (hk : dec.kind = .dsge) (fuel : Nat)
+    (ty : Ty) (ctx : Ctx) (deps : List (String × Val)) : Replay (createNode g dec fuel ty ctx deps) :=
+  ((replay_closed g dec hk).createNode_all fuel).1 ty ctx deps
+
 end GEVerif.Genotype
